@@ -318,7 +318,8 @@ def check_execseq(rep, tier):
         raise MachineryError("TLC printed no executor histories for %s" % cfg)
 
     def line(p):
-        return " ".join("D" if e == "D" else e + j for e, j in p["prog"])
+        body = " ".join("D" if e == "D" else e + j for e, j in p["prog"])
+        return body if p.get("chain", "none") == "none" else "chain=%s %s" % (p["chain"], body)
     chunk = 5000
     bad = {}
     ran = 0
@@ -336,7 +337,7 @@ def check_execseq(rep, tier):
         ran += len(got)
         for i, p in enumerate(part):
             g = got.get(i)
-            execs = "".join(sorted({e for e, j in p["prog"] if e != "D"}))
+            execs = "".join(sorted({e for e, j in p["prog"] if e != "D"})) + ("" if p.get("chain", "none") == "none" else "/chain=" + p["chain"])
             if g is None:
                 if i == len(got):
                     bad.setdefault("crash/execseq/%s" % execs, []).append((p, None, "the process died (exit %s) while executing this history" % rc))
